@@ -207,7 +207,8 @@ class C03(E2ECheck):
         'fault_sites': [s for s in ALL_FAULT_SITES
                         if s != 's3.abort_multipart_upload']
         + ['stream.read'],
-        'fault_excs': ['injected', 'injected', 'oserror', 'retryable:1'],
+        'fault_excs': ['injected', 'injected', 'oserror', 'retryable:1',
+                       'brokenpipe'],
         'min_faults': 1, 'max_faults': 2, 'cancels': 1,
         'ends': ['shutdown'],
     }
